@@ -105,6 +105,9 @@ def check_history(run):
             out.append(V("C06", "worker_creation", "after broadcast %d: %d distinct workers seen, largest request so far %d" % (b, len(workers_seen), max_n)))
         if not concurrent and b < len(info["tc"]) and info["tc"][b] != max_n:
             out.append(V("C06", "pool_size", "after broadcast %d the pool holds %d threads, largest request so far %d" % (b, info["tc"][b], max_n)))
+            if info["tc"][b] > max_n:
+                # workers beyond the largest request can never be handed a task: they are leaked for the life of the pool
+                out.append(V("C07", "surplus_workers", "after broadcast %d the pool holds %d threads although no broadcast ever asked for more than %d: the surplus workers can never receive a task" % (b, info["tc"][b], max_n)))
         if b in info["pe"]:
             exp = ["-" if (b, i) in panics else str(i) for i in range(n + 1)]
             if info["pe"][b] != exp:
